@@ -1,6 +1,6 @@
 From Coq Require Import List Ascii ZArith.
 From Coq Require Import ExtrOcamlBasic ExtrOcamlString.
-From OsmtV.Pipe Require Import PipeBase Gen_PipeFlags Gen_LexRules LexStates PipeModel PipeProofs PipeLexProofs.
+From OsmtV.Pipe Require Import PipeBase Gen_PipeFlags Gen_LexRules LexStates PipeModel.
 Extraction "pipe_model.ml" pipe_events read_pieces stream_events file_events file_commands lex_valid
   no_escaped_quote lex_echo is_exit_command cut executed visible frame_texts
   gen_has_string_escape gen_lone_backslash_echo gen_init_buf_sz.
